@@ -172,6 +172,11 @@ func (e *Exec) action(fn *ssa.Function) *fnAction {
 
 func (e *Exec) decideAction(fn *ssa.Function) *fnAction {
 	key := fnKey(fn)
+	if e.cfg.ThreadMode {
+		if in, ok := threadIntrinsics[key]; ok {
+			return &fnAction{kind: actIntrinsic, name: key, intrinsic: in}
+		}
+	}
 	if in, ok := intrinsics[key]; ok {
 		return &fnAction{kind: actIntrinsic, name: key, intrinsic: in}
 	}
@@ -276,7 +281,6 @@ func resolveRedirects(prog *ssa.Program, table map[string]string) error {
 
 // ---------- thread-mode placeholders (sequential mode) ----------
 
-type threadState struct{}
 
 func (e *Exec) goStmt(fr *frame, ins *ssa.Go) {
 	if e.cfg.ThreadMode {
